@@ -3,7 +3,7 @@ import os
 import re
 
 from .extract import REPO, AnalysisBroken
-from .facts import as_assign, estr, unwrap, walk
+from .facts import as_assign, estr, need_names, unwrap, walk
 from .readers import BFR, BFW, FM, cmp_parts, strip_casts, facts_with_lambda
 
 NS = "OpenVolumeMesh::IO::detail::"
@@ -405,6 +405,7 @@ def width_selection(ck, fb):
         calls = [estr(h.resolve(x["a"])) for b, i, x in h.nodes(("call",)) if x.get("pn", "") == NS + "suitable_int_encoding"]
         if calls:
             n_ok += 1
+            need_names(h, ["max_valence", "min_valence"], None, "C06.width")
             ok = all(c == "max_valence" for c in calls)
             (ck.ok if ok else lambda r_, w_, t: ck.violate(r_, w_, t, "C06.width:valence"))("C06.width", h.where, "start_topo_chunk encodes variable valences for the maximum valence (%s)" % calls)
             # fixed valence only if it fits the one-byte field
@@ -444,7 +445,7 @@ def reader_siblings(ck, fb):
                                 if v["id"] == a["id"] and v.get("init") is not None:
                                     src = unwrap(strip_casts(h.resolve(v["init"])))
                     adds.append(estr(src))
-        ok = bool(adds) and all("header.handle_offset" in s for s in adds) and not any("span.first" in s for s in adds)
+        ok = bool(adds) and all(".handle_offset" in s for s in adds) and not any("span.first" in s for s in adds)
         (ck.ok if ok else lambda r_, w_, t: ck.violate(r_, w_, t, "C06.offset:%s" % name))("C06.offset", g.where, "%s builds handles from %s" % (name, sorted(set(adds))))
 
 
